@@ -8,8 +8,9 @@ EXPLANATION = ("static analysis: to_directed and the plain branch of to_undirect
                "canonical source timeline: the recording result must receive add_interaction(u, v, a, b+1) for every "
                "stored interval [a, b] (instants, never the stored list objects), every node, and deep copies of the "
                "graph and node attributes, outside any try, without writing the source; the reciprocal branch is "
-               "typed by the endpoint-convention checker (sorted shared instants, closed end + 1) and its handler "
-               "must be narrow")
+               "interpreted with two timelines (u->v and v->u, 1..2 intervals each) using interval-set values for "
+               "set(range(..)) / & / sorted / len, over every order type of the four to six interval ends: the spans "
+               "re-added must be exactly the non-empty intersections, in increasing order; its handler must be narrow")
 
 
 def run(repo: Repo, tier, rep: Report):
@@ -20,7 +21,7 @@ def run(repo: Repo, tier, rep: Report):
     for s in [s for s in cc.samples if "to_" in s["function"]][:3]:
         rep.sample(dict(engine="O", **s))
     n = check_kinds(repo, rep, functions={"to_directed", "to_undirected"})
-    rep.floor("typed sinks in the conversions", n, 8)
+    rep.floor("typed sinks in the conversions", n, 3)
     from sa.idioms import check_swallowed_rejections
     check_swallowed_rejections(repo, rep, functions={"to_directed", "to_undirected"})
 
@@ -28,5 +29,4 @@ def run(repo: Repo, tier, rep: Report):
         rep.finding(rule, construct, key, msg, line=line)
     check_purity(repo, addp, only={"to_directed", "to_undirected"})
     rep.assume(*common.CTOR_ASSUMPTIONS)
-    rep.assume("the reciprocal *intersection* of runtime instant sets is decided only as far as the conventions of its "
-               "operands go (sorted, closed end + 1, narrow handler); see the reciprocal check in the thorough tier")
+    rep.assume("reciprocal branch: timelines of 1..2 intervals per direction (thorough: 2x2); nodes are comparable (u >= v)")
